@@ -205,7 +205,14 @@ def log(x):
     return math.log(x) if x > 0 else -math.inf
 
 
-exp = TransformOp.make(math.exp)
+@TransformOp.make
+def exp(x):
+    try:
+        return math.exp(x)
+    except OverflowError:  # agree with the array backends
+        return math.inf
+
+
 tanh = TransformOp.make(math.tanh)
 atanh = TransformOp.make(math.atanh)
 
